@@ -76,6 +76,12 @@ def check(res, value, src, columns, desc):
         return
     lines = [cells(l) for l in out]
     ctx["lines"] = [show(l) for l in lines][:8]
+    if isinstance(out, list) and out:
+        # the result belongs to the caller, who does with the list what callers do (drop shown lines, add a marker line,
+        # reverse it); later calls must not see any of that
+        out.reverse()
+        out.append("-- more --")
+        del out[:1]
     if not words:
         res.label("no_words")
         if any(len(l) for l in lines):
@@ -151,6 +157,16 @@ def run_case(case):
         check(res, value, src, c, desc)
         if len(res.violations) > 3:
             break
+    if case.get("again") and not res.violations:
+        # the same questions asked again - of the same object, then of an equal value built afresh
+        res.label("same_call_repeated_after_caller_edited_the_result")
+        fresh = value if isinstance(value, str) else build_any(case["desc"], "chunks", 0)
+        for v in (value, fresh):
+            for c in cols:
+                check(res, v, src, c, desc)
+            res.evals += len(cols)
+            if res.violations:
+                break
     if not isinstance(value, str) and cells(value) != src:
         res.viol("operand_changed", input=desc)
     return res
@@ -166,9 +182,9 @@ def strategy():
     cols = st.lists(st.one_of(st.integers(1, 8), st.integers(1, 8), st.sampled_from([10, 16, 20, 40, 79, 80, 100, 255, 256, 300])), min_size=1, max_size=3, unique=True)
     long_run = st.tuples(gen.text(alpha, 20, 160), st.sampled_from(FMTS)).map(list)
     return st.one_of(
+        st.fixed_dictionaries({"desc": st.lists(run, min_size=0, max_size=5), "columns": cols, "build": gen.BUILDS, "obs": gen.OBS, "again": st.booleans()}),
         st.fixed_dictionaries({"desc": st.lists(run, min_size=0, max_size=5), "columns": cols, "build": gen.BUILDS, "obs": gen.OBS}),
-        st.fixed_dictionaries({"desc": st.lists(run, min_size=0, max_size=5), "columns": cols, "build": gen.BUILDS, "obs": gen.OBS}),
-        st.fixed_dictionaries({"str": gen.text(alpha, 0, 16), "columns": cols, "noise": st.booleans()}),
+        st.fixed_dictionaries({"str": gen.text(alpha, 0, 16), "columns": cols, "noise": st.booleans(), "again": st.booleans()}),
         st.fixed_dictionaries({"desc": st.lists(long_run, min_size=1, max_size=3), "columns": cols}),
         st.fixed_dictionaries({"str": gen.text(alpha, 40, 300), "columns": cols}),
         st.fixed_dictionaries({"str": gen.text("abcdefg ", 300, 700), "columns": cols}),
@@ -197,11 +213,22 @@ def campaign(col, tier, seed, shard, nshards):
             variants = [{"str": s}, {"desc": [[s, FMTS[i % 3]]]}]
             for k in range(1, L):
                 variants.append({"desc": [[s[:k], FMTS[(i + k) % 3]], [s[k:], FMTS[(i + k + 1) % 3]]]})
-            for case in variants:
+            for vi, case in enumerate(variants):
+                if (i + vi) % 5 == 0:
+                    case["again"] = True
                 res = run_case(case)
                 unknown = col.record(case, res, distinct=True, sample=(i % 3001 == 5))
                 if unknown:
                     col.add_violation(case, unknown)
     col.exhaustive[f"strings_len_le_{maxlen}_over_6_symbols_x_layouts_x_4_widths"] = True
+    # words far longer than a line: thousands of pieces (quick: one size per shard)
+    giants = [{"str": "x" * 5000, "columns": [2]}, {"str": "ab " + "y" * 3100 + " c", "columns": [1]},
+              {"desc": [["q" * 1500, {"fg": 31}], ["r" * 1500, {"bold": True}], [" z", {}]], "columns": [1, 3]},
+              {"str": "w" * 140000, "columns": [80]}]
+    for gi, case in enumerate(giants):
+        if gi % nshards == shard:
+            unknown = col.record(case, run_case(case), distinct=True, sample=False)
+            if unknown:
+                col.add_violation(case, unknown)
     n = 3200 if tier == "quick" else 100000
     hyp_campaign(col, strategy(), run_case, max(n // nshards, 100), seed * 100 + shard)
